@@ -338,6 +338,10 @@ InterpreterMonitor* newRecMonitor(JW* w, bool copyToInvokers, bool timestamps) {
 	return m;
 }
 
+void recMonitorSetMain(InterpreterMonitor* m, const std::string& session) {
+	static_cast<RecMonitor*>(m)->mainSession = session;
+}
+
 void registerCoreCmds() {
 	cmdTable()["run"] = cmdRun;
 	cmdTable()["validate"] = cmdValidate;
